@@ -48,8 +48,9 @@ ASSUMPTIONS = [
     "hold the result'); Double-ness, integer type of relational/\\/MOD/logical results and the "
     "non-integer type of / and ^ are strict",
     "^ with a Double operand may return Single or Double (statement: widest operand type; manual: "
-    "at most single precision unless the double option is set); ^ asserted only for integral "
-    "exponents |e| <= 24",
+    "at most single precision unless the double option is set); the value of ^ is asserted only "
+    "for Integer-class exponents |e| <= 24 (repeated multiplication is exact there; a float "
+    "exponent uses the transcendental routine whose accuracy belongs to C04)",
     "unary - and + applied to a string, halves rounded to integer, -32768 MOD -1, logical operands "
     "in 32768..65535 and values after a soft (direct-mode) Overflow/Division by zero are not asserted",
     "an operator application with a type mismatch and another error condition at once may report "
@@ -302,6 +303,14 @@ def leaf_value(leaf):
     return Val({kind}, v)
 
 
+def _lowbit(v):
+    """Largest power of two (as a Fraction) that divides the dyadic rational v != 0."""
+    n, d = v.numerator, v.denominator
+    if d & (d - 1):
+        return Fraction(1, 2 ** 200)          # not dyadic: never fits a window
+    return Fraction(n & -n, d) if n > 0 else Fraction((-n) & n, d)
+
+
 def numeric_result(types, v):
     """Arithmetic result: check exact representability in the narrowest admissible type."""
     if v != 0 and (abs(v) >= BIG or abs(v) < 1 / BIG):
@@ -395,6 +404,14 @@ def apply_binary(op, a, b):
         if 'I' in types:
             types.add('S')
         v = a.v + b.v if op == '+' else a.v - b.v if op == '-' else a.v * b.v
+        if op != '*' and a.v != 0 and b.v != 0:
+            # an adder that aligns the smaller operand must not lose any of its bits: both
+            # operands have to fit one mantissa window (1048576!-.0625 is rounded by pcbasic
+            # although the difference is representable: accuracy is C04's subject, not ours)
+            q = min(_lowbit(a.v), _lowbit(b.v))
+            window = 56 if types == {'D'} else 24
+            if max(abs(a.v), abs(b.v)) / q >= 2 ** window:
+                raise Unspec('alignment')
         return numeric_result(types, v)
     if op == '/':
         if b.v == 0:
@@ -404,6 +421,10 @@ def apply_binary(op, a, b):
         for x in (a, b):
             if not fits(x.v, 'S'):
                 raise Unspec('pow-operand-not-single')
+        if b.types != {'I'}:
+            # a Single/Double exponent goes through the transcendental routine, whose accuracy is
+            # not this property's business (x^1! may differ from x in the last place)
+            raise Unspec('pow-float-exponent')
         if b.v.denominator != 1 or abs(b.v) > 24:
             raise Unspec('pow-exponent')
         e = int(b.v)
@@ -764,7 +785,7 @@ def check_dangling(case, res, tree, mini, nops):
     if misapplied:
         res.label('dangling.two-operators-pending')
         if not good:
-            if case.get('strict'):
+            if case.get('strict', True):         # fixed 5b77a5ff: asserted everywhere
                 res.fail('dangling.operator-applied-to-outer-operand',
                          '%s: expected only error %s, got %r' % (text, sorted(allowed), o[:3]))
             else:
@@ -792,7 +813,7 @@ DBL = ['0.5#', '1.5#', '2#', '3#', '1#', '0#', '2.25#', '4#', '0.125#', '10.75#'
        '1099511627776.5#', '3.0000152587890625#', '1234567.0078125#']
 STRS = ['a', 'b', 'ab', '', 'A', ' ', 'abc', 'aa', 'B', 'a b']
 POW2 = ['2', '4', '8', '0.5', '2!', '16', '0.25', '4#', '2#', '1']
-SMALL_EXP = ['2', '0', '1', '3', '4', '2!', '3#', '5', '2#', '1!']
+SMALL_EXP = ['2', '0', '1', '3', '4', '2%', '3', '5', '2#', '1!', '&H2', '6']
 NUMVARS = [v for v in sorted(VARS) if VARS[v][0] != '$']
 STRVARS = [v for v in sorted(VARS) if VARS[v][0] == '$']
 LEAF_AT = {6: 0, 5: 1, 4: 3, 3: 6, 2: 8, 1: 11, 0: 16}      # leaf if take(16) < LEAF_AT[remaining]
@@ -948,14 +969,35 @@ REGRESSIONS = [
     {'tree': _t('IMP', _t('EQV', _t('XOR', _t('OR', _lit('1'), _lit('2')), _lit('3')), _lit('4')),
                 _lit('5')), 'r': 5},
     {'tree': _t('MOD', _lit('7'), _t('\\', _lit('9'), _lit('2'))), 'r': 6},
-    # open: PRINT 1 OR 0/ prints Division by zero before Missing operand
+    # fixed 5b77a5ff: PRINT 1 OR 0/ printed Division by zero before Missing operand
     {'tree': _t('OR', _lit('1'), _t('/', _lit('0'), _lit('2'))), 'r': 0, 'del': 2, 'strict': True},
-    # open: 2>1 AND "a"< reports Type mismatch instead of Missing operand
+    # fixed 5b77a5ff: 2>1 AND "a"< reported Type mismatch instead of Missing operand
     {'tree': _t('AND', _t('>', _lit('2'), _lit('1')), _t('<', ['L', '$', 'a'], ['L', '$', 'b'])),
      'r': 0, 'del': 3, 'strict': True},
-    # open: (1 AND 40000\) reports Overflow instead of Syntax error
+    # fixed 5b77a5ff: (1 AND 40000\) reported Overflow instead of Syntax error
     {'tree': _t('*', _lit('2'), _t('AND', _lit('1'), _t('\\', _lit('40000'), _lit('2')))),
      'r': 0, 'del': 3, 'strict': True},
 ]
 
-KILLS = []
+KILLS = [
+    "operators.py PRECEDENCE \\ 10 -> 9 (same level as MOD) -> meta.min-vs-full, meta.red-vs-full",
+    "operators.py PRECEDENCE MOD 9 -> 10.5 (above \\) -> meta.min-vs-full, model.value, model.error-code",
+    "operators.py PRECEDENCE XOR 3 -> 4.5 (above OR) -> meta.min-vs-full, model.value",
+    "operators.py PRECEDENCE EQV 2 -> 0.5 (below IMP) -> meta.min-vs-full, model.value (regression 1 OR 2 XOR 3 EQV 4 IMP 5)",
+    "operators.py PRECEDENCE AND 5 -> 6.5 (above NOT) -> meta.min-vs-full, model.value, model.type.logical",
+    "operators.py PRECEDENCE unary minus 12 -> 14 (above ^) -> meta.min-vs-full, model.value (regression -2^2)",
+    "operators.py PRECEDENCE NOT 6 -> 12 (like unary minus) -> meta.*, model.value, model.type.* (regression 1+NOT 2+3)",
+    "expressions.py _drain 'precedence > top' -> '>=' (right-to-left grouping) -> meta.*, model.value (regression 3<2<1)",
+    "operators.py BINARY '=>' -> values.lte -> model.value, model.error-*",
+    "values.py from_bool returns Single -1 -> model.type.relational",
+    "values.py match_types ignores a Double right operand -> model.type.widest-operand, model.value",
+    "values.py div returns Integer for divisible integers -> model.type.division",
+    "values.py neg promotes to Double -> model.type.unary-sign, model.type.division, model.type.widest-operand",
+    "values.py imp_ fix 916ec638 reverted -> escaped.AttributeError@values.py:imp_ (regression 1 IMP \"a\")",
+    "values.py sub raises Illegal function call for a string operand -> mismatch.wrong-error",
+    "SURVIVED (equivalent): XOR and EQV on one level or swapped (a XOR b EQV c is associative across the "
+    "two operators: both groupings equal NOT(a XOR b XOR c)); unary plus at precedence 8 (identity); "
+    "dropping 'or d == tk.NOT' in parse (implied by the preceding branch)",
+    "fix 5b77a5ff reverted (expressions.py as in the snapshot) -> dangling.operator-applied-to-outer-"
+    "operand (regressions and random 'dangling' unit)",
+]
